@@ -18,6 +18,7 @@ import asyncio
 import builtins
 import importlib
 import os
+import re
 import shutil
 import signal
 import sys
@@ -110,6 +111,12 @@ def r_stmt(funcs, s, ind=0):
         return [f"{p}from {'.' * s[1]} import {s[2]}" + (f" as {s[3]}" if s[3] else "")]
     if k == "setctx":
         return [f"{p}pyscript.set_global_ctx(\"{'.'.join(s[1])}\")"]
+    if k == "all":
+        return [f"{p}__all__ = [{', '.join(repr(n) for n in s[1])}]"]
+    if k == "getctx":
+        return [f"{p}{s[1]} = pyscript.get_global_ctx()"]
+    if k == "listctx":
+        return [f"{p}{s[1]} = pyscript.list_global_ctx()"]
     if k == "sleep":
         # a suspension point inside a function body (1 unit = 10 ms); the sequential model sees a local assignment
         return [f"{p}task.sleep({r_atom(s[1])} / 100)"]
@@ -135,6 +142,10 @@ def to_line(p):
             return ["spawn", bool(s[1]), s[2], s[3]]
         if k == "sleep":
             return ["assign", "_sl", s[1]]
+        if k == "all":
+            return ["assign", "__all__", ["lit", 0]]     # the model (like pyscript) does not interpret __all__
+        if k in ("getctx", "listctx"):
+            return ["assign", s[1], ["lit", 0]]          # probe names are dunders: outside the compared tables
         return s
     funcs = [[n, ps, gl, [st(x) for x in b]] for n, ps, gl, b in p["funcs"]]
     files = [[path, [st(x) for x in b]] for path, b in p["files"]]
@@ -331,6 +342,11 @@ async def ps_run(p, root):
     outs, restored = [], []
     for op in p["ops"]:
         ctxs = list(_all_ctx)
+        if op[0] == "delctx":
+            GlobalContextMgr.delete(".".join(p["ctxs"][op[1]][0]))
+            outs.append("deleted")
+            restored.append(None)
+            continue
         if op[0] == "race":
             # k tasks, each runs `def _imp(): import m; return m` through task.create at the same time
             a = evals[op[1]]
@@ -373,7 +389,22 @@ async def ps_run(p, root):
         after = _ps_ptrs(ctxs, a)
         outs.append(f"{out}@{after}")
         restored.append((before, after))
+    _probe["ps"] = _collect_probes([(_label(list(_all_ctx), g), g.global_sym_table) for g in _all_ctx])
     return outs, _ps_tables(list(_all_ctx), nmain), restored
+
+
+_probe = {}
+PROBE_RE = re.compile(r"^__gc\d+__$")
+
+
+def _collect_probes(tables):
+    """values of the `__gcN__` probe names (results of pyscript.get_global_ctx / list_global_ctx), per context"""
+    out = {}
+    for label, tab in tables:
+        for k, v in tab.items():
+            if PROBE_RE.match(str(k)):
+                out[f"{label}:{k}"] = v if isinstance(v, str) else list(v)
+    return out
 
 
 # --------------------------------------------------------------------------------------------- CPython oracle
@@ -441,11 +472,38 @@ def py_run(p, root):
     names_ = [n for n, _ in p["ctxs"]]
 
     def _set_global_ctx(name):
-        if name.split(".") not in names_:
+        if name.split(".") not in names_ or names_.index(name.split(".")) in deleted:
             raise NameError(f"global context '{name}' does not exist")
         pending.append(names_.index(name.split(".")))
 
-    builtins.pyscript = types.SimpleNamespace(set_global_ctx=_set_global_ctx)
+    deleted = set()
+
+    def _label_of_globals(d):
+        for i, m in enumerate(mains):
+            if m.__dict__ is d:
+                return ".".join(names_[i])
+        for k in set(sys.modules) - before_mods:
+            m = sys.modules[k]
+            fn = getattr(m, "__file__", None)
+            if m.__dict__ is d and fn and fn.startswith(base):
+                return _py_label_of_file(root, fn)
+        return "?"
+
+    def _get_global_ctx():
+        return _label_of_globals(sys._getframe(1).f_globals)
+
+    def _list_global_ctx():
+        me = _label_of_globals(sys._getframe(1).f_globals)
+        allc = {".".join(n) for i, n in enumerate(names_) if i not in deleted}
+        for k in set(sys.modules) - before_mods:
+            fn = getattr(sys.modules[k], "__file__", None)
+            if fn and fn.startswith(base):
+                allc.add(_py_label_of_file(root, fn))
+        allc.discard(me)
+        return [me, *sorted(allc)]
+
+    builtins.pyscript = types.SimpleNamespace(set_global_ctx=_set_global_ctx, get_global_ctx=_get_global_ctx,
+                                              list_global_ctx=_list_global_ctx)
     mains = []
     try:
         for name, rel in p["ctxs"]:
@@ -464,9 +522,13 @@ def py_run(p, root):
             if op[0] == "race":
                 outs.append("race:1")
                 continue
+            if op[0] == "delctx":
+                deleted.add(op[1])
+                outs.append("deleted")
+                continue
             s = op[2]
             if s[0] == "setctx":
-                tgt = [i for i, (n, _) in enumerate(p["ctxs"]) if n == s[1]]
+                tgt = [i for i, (n, _) in enumerate(p["ctxs"]) if n == s[1] and i not in deleted]
                 if tgt:
                     cur[op[1]] = tgt[0]
                     outs.append("ok")
@@ -499,6 +561,7 @@ def py_run(p, root):
             fn = getattr(m, "__file__", None)
             if fn and fn.startswith(base) and not any(m is x for _, x in mods):
                 mods.append((_py_label_of_file(root, fn), m))
+        _probe["py"] = _collect_probes([(lab, m.__dict__) for lab, m in mods])
 
         def label_of_dict(d):
             for lab, m in mods:
@@ -614,6 +677,12 @@ def scenarios():
              [["modules", "m2"], [["assign", "y", L(2)], ["import", ["m1"], None]]]]
     out.append({"kind": "interp", "tag": "cycle", "funcs": [], "files": files, "ctxs": [S1],
                 "ops": [["run", 0, ["assign", "x", L(5)]], ["run", 0, ["import", ["m1"], None]]]})
+    # a global named like one of pyscript's own functions, read inside a function (oracle only: the per-evaluator
+    # function table `local_sym_table` is not part of the C11 model)
+    out.append({"kind": "interp", "tag": "shadow-pyscript-function", "no_model": True,
+                "funcs": [["f", [], [], [["ret", V("print")]]]], "files": [], "ctxs": [S1],
+                "ops": [["run", 0, ["assign", "print", L(5)]], ["run", 0, ["assign", "a", V("print")]],
+                        ["run", 0, ["def", "f", 0]], ["run", 0, ["call", "b", V("f"), []]]]})
     # set_global_ctx at top level (Jupyter style), incl. unknown context
     funcs = [["f", [], ["x"], [["assign", "x", L(9)]]]]
     ops = [["run", 0, ["assign", "x", L(1)]], ["run", 1, ["assign", "x", L(2)]], ["run", 0, ["def", "f", 0]],
@@ -622,6 +691,165 @@ def scenarios():
            ["run", 0, ["setctx", ["file", "s1"]]], ["run", 0, ["assign", "w", V("x")]]]
     out.append({"kind": "interp", "tag": "setctx", "funcs": funcs, "files": [], "ctxs": [S1, S2], "ops": ops})
     return out
+
+
+# ------------------------------------------------------------------------------------------ boundary sweep
+RENAMES = [
+    ("module-name-prefix", {"m2": "m10"}),             # m1 is a prefix of m10
+    ("module-name-case", {"m2": "M1"}),                # m1 / M1 differ only in case
+    ("script-and-module-same-base-name", {"m1": "s1"}),
+    ("context-name-prefix", {"s2": "s10"}),            # file.s1 is a prefix of file.s10
+    ("context-name-case", {"s2": "S1"}),
+    ("shadow-builtin-len", {"z": "len"}),
+    ("shadow-builtin-id", {"y": "id"}),
+    ("shadow-builtin-sum", {"h": "sum"}),
+    ("shadow-builtin-max", {"g": "max"}),
+]
+
+
+def rename_ids(obj, mapping):
+    """replace identifiers / name segments everywhere in a payload"""
+    if isinstance(obj, str):
+        return mapping.get(obj, obj)
+    if isinstance(obj, list):
+        return [rename_ids(x, mapping) for x in obj]
+    if isinstance(obj, dict):
+        return {k: (v if k in ("tags", "tag", "kind") else rename_ids(v, mapping)) for k, v in obj.items()}
+    return obj
+
+
+def deep_pkg_case(rng):
+    """a package three levels deep (modules/pkg/sub2/deep.py), reached by every dotted spelling"""
+    v = rng.randrange(1, 50)
+    variant = rng.choice(["plain", "plain", "import-dotted", "deep-relative"])
+    funcs = [["f", ["a"], ["w"], [["add", "w", V("w"), V("a")], ["ret", V("w")]]]]
+    deep_body = [["assign", "w", L(v)], ["def", "f", 0]]
+    if variant == "deep-relative":
+        # a relative import two levels up from a module that is not __init__ (finding C11-F1: wrong context name)
+        deep_body.append(["fromdot", 2, "sib", None])
+    files = [[["modules", "pkg", "sib"], [["assign", "v", L(v + 1)]]],
+             [["modules", "pkg", "sub2", "deep"], deep_body],
+             [["modules", "pkg", "sub2", "__init__"], [["fromdot", 2, "sib", None], ["fromdot", 1, "deep", None],
+                                                       ["assign", "lvl", L(2)]]],
+             [["modules", "pkg", "__init__"], [["fromdot", 1, "sub2", None], ["fromdot", 1, "sib", None], ["assign", "lvl", L(1)]]]]
+    ops = [["run", 0, ["import", ["pkg"], None]],
+           ["run", 0, ["import", ["pkg", "sub2"], "ps"]],                       # import a.b as x
+           ["run", 0, ["from", ["pkg", "sub2"], 0, [["deep", "d3"], ["lvl", "l2"]]]],   # from a.b import c as d
+           ["run", 0, ["from", ["pkg", "sub2", "deep"], 0, [["f", "f3"], ["w", None]]]],
+           ["run", 1, ["from", ["pkg", "sub2", "deep"], 0, [["f", None]]]],
+           ["run", 0, ["call", "r", V("f3"), [L(2)]]], ["run", 1, ["call", "r", V("f"), [L(3)]]],
+           ["run", 0, ["call", "r2", A("d3", "f"), [L(4)]]],
+           ["run", 1, ["from", ["pkg"], 0, [["sib", "sb"]]]], ["run", 1, ["setattr", "sb", "v", L(0)]],
+           ["run", 0, ["assign", "same", A("ps", "sib")]]]
+    if variant == "import-dotted":
+        ops.insert(rng.randrange(1, len(ops)), ["run", 1, ["import", ["pkg", "sub2", "deep"], None]])   # import a.b.c
+    return {"kind": "interp", "tag": "deep-package", "funcs": funcs, "files": files, "ctxs": [S1, S2], "ops": ops,
+            "tags": ["package-depth-3", "variant-" + variant]}
+
+
+def star_all_case(rng):
+    """`from m import *` when the module defines __all__ (with a private name in it / a public name left out)"""
+    v = rng.randrange(1, 50)
+    allnames = rng.choice([["x"], ["x", "_p"], ["f"], ["x", "f", "y"]])
+    funcs = [["f", [], ["y"], [["add", "y", V("y"), L(1)], ["ret", V("y")]]]]
+    files = [[["modules", "m1"], [["assign", "x", L(v)], ["assign", "y", L(v + 1)], ["assign", "_p", L(v + 2)],
+                                  ["def", "f", 0], ["all", allnames]]],
+             [["modules", "m2"], [["assign", "x", L(v + 5)], ["assign", "_q", L(1)]]]]
+    ops = [["run", 0, ["assign", "y", L(100)]], ["run", 0, ["star", ["m1"], 0]], ["run", 1, ["star", ["m2"], 0]],
+           ["run", 1, ["star", ["m1"], 0]]]
+    return {"kind": "interp", "tag": "star-all", "funcs": funcs, "files": files, "ctxs": [S1, S2], "ops": ops,
+            "tags": ["star-import-__all__", "all-" + "+".join(allnames)], "has_all": True}
+
+
+def two_spellings_case(rng):
+    """one module reached by its absolute dotted name and by a relative import, in both orders"""
+    v = rng.randrange(1, 50)
+    abs_first = rng.random() < 0.5
+    files = [[["modules", "pkg", "sib"], [["assign", "v", L(v)]]],
+             [["modules", "pkg", "__init__"], [["assign", "lvl", L(1)]] + ([] if abs_first else [["fromdot", 1, "sib", None]])],
+             [["modules", "pkg", "late"], [["fromdot", 1, "sib", None]]]]
+    ops = [["run", 0, ["import", ["pkg"], None]],
+           ["run", 0, ["from", ["pkg", "sib"], 0, [["v", "v1"]]]],             # absolute spelling
+           ["run", 0, ["import", ["pkg", "sib"], "sa"]],
+           ["run", 1, ["import", ["pkg"], None]],
+           ["run", 1, ["from", ["pkg", "sib"], 0, [["v", "v2"]]]],
+           ["run", 0, ["setattr", "sa", "v", L(v + 9)]],
+           ["run", 1, ["import", ["pkg", "sib"], "sb"]], ["run", 1, ["assign", "seen", A("sb", "v")]]]
+    return {"kind": "interp", "tag": "two-spellings", "funcs": [], "files": files, "ctxs": [S1, S2], "ops": ops,
+            "tags": ["absolute-and-relative-spelling", "absolute-first" if abs_first else "relative-first"]}
+
+
+S3 = [["file", "s3"], None]
+
+
+def fnflow_case(rng):
+    """function values cross context boundaries as arguments, return values and module attributes and are called
+    later from a third context; `global` inside those calls; exceptions crossing two boundaries; task.create of a
+    cross-context function; three and more calls in a row"""
+    v = rng.randrange(2, 9)
+    reps = rng.randrange(3, 6)
+    funcs = [
+        ["reg", ["fn"], ["hook"], [["assign", "hook", V("fn")], ["ret", V("fn")]]],                                   # 0 m1
+        ["run", ["a"], ["cnt"], [["add", "cnt", V("cnt"), L(1)], ["add", "t", V("a"), L(v)], ["call", "r", V("hook"), [V("t")]],
+                                 ["add", "u", V("r"), V("t")], ["ret", V("u")]]],                                    # 1 m1
+        ["inner", ["a"], ["made"], [["add", "made", V("made"), V("a")], ["ret", V("made")]]],                           # 2 m1
+        ["mk", [], [], [["def", "inner", 2], ["ret", V("inner")]]],                                                    # 3 m1
+        ["h1", ["a"], ["x"], [["add", "x", V("x"), V("a")], ["ret", V("x")]]],                                          # 4 s1
+        ["bad", ["a"], ["x"], [["add", "x", V("x"), L(1)], ["raise", 3]]],                                              # 5 s1
+        ["t3", [], ["z"], [["assign", "t", L(v)], ["try", [["call", "r", A("m1", "run"), [L(1)]]], [["assign", "e", L(1)]]],
+                           ["add", "z", V("z"), V("t")], ["ret", V("z")]]],                                            # 6 s3
+        ["viaarg", ["fn", "a"], ["y"], [["call", "r", V("fn"), [V("a")]], ["add", "y", V("y"), V("r")], ["ret", V("y")]]],  # 7 s2
+    ]
+    files = [[["modules", "m1"], [["assign", "cnt", L(0)], ["assign", "made", L(0)], ["def", "reg", 0], ["def", "run", 1],
+                                  ["def", "mk", 3]]]]
+    ops = []
+    for i in range(3):
+        ops += [["run", i, ["import", ["m1"], None]], ["run", i, ["assign", "x", L(100 * (i + 1))]],
+                ["run", i, ["assign", "y", L(0)]], ["run", i, ["assign", "z", L(0)]]]
+    ops += [["run", 0, ["def", "h1", 4]], ["run", 0, ["def", "bad", 5]], ["run", 2, ["def", "t3", 6]], ["run", 1, ["def", "viaarg", 7]],
+            ["run", 0, ["call", "k", A("m1", "reg"), [V("h1")]]],          # argument + return value
+            ["run", 0, ["setattr", "m1", "keep", V("h1")]]]                  # module attribute
+    body = []
+    for j in range(reps):                                                   # the third and later call
+        body.append(["run", 1, ["call", "r", A("m1", "run"), [L(j + 1)]]])
+    body += [["run", 2, ["assign", "g3", A("m1", "keep")]], ["run", 2, ["call", "q", V("g3"), [L(2)]]],   # third context
+             ["run", 2, ["call", "inn", A("m1", "mk"), []]], ["run", 2, ["call", "w", V("inn"), [L(7)]]],
+             ["run", 1, ["assign", "hk", A("m1", "keep")]], ["run", 1, ["call", "w", V("viaarg"), [V("hk"), L(4)]]],
+             ["run", 2, ["spawn", False, A("m1", "run"), [L(3)]]],           # task.create of a cross-context function
+             ["run", 1, ["spawn", False, V("hk"), [L(1)]]]]
+    rng.shuffle(body)
+    ops += body
+    # exceptions crossing two context boundaries: s1.bad raises inside m1.run called from s2 / s3
+    ops += [["run", 0, ["call", "k", A("m1", "reg"), [V("bad")]]],
+            ["run", 1, ["call", "r", A("m1", "run"), [L(1)]]],              # propagates to the top level of s2
+            ["run", 2, ["call", "r", V("t3"), []]],                          # caught two boundaries up, in s3
+            ["run", 2, ["spawn", False, A("m1", "run"), [L(2)]]],
+            ["run", 0, ["call", "k", A("m1", "reg"), [V("h1")]]],
+            ["run", 1, ["call", "r", A("m1", "run"), [L(1)]]]]
+    return {"kind": "interp", "tag": "fnflow", "funcs": funcs, "files": files, "ctxs": [S1, S2, S3], "ops": ops,
+            "tags": ["function-values-across-contexts", "third-context", "exception-two-boundaries", "repeat-%d" % reps]}
+
+
+def ctxapi_case(rng):
+    """pyscript.get_global_ctx / list_global_ctx / set_global_ctx with the own, a missing and a deleted context"""
+    funcs = [["who", [], ["__gc7__"], [["getctx", "__gc7__"], ["ret", L(0)]]]]
+    files = [[["modules", "m1"], [["assign", "x", L(1)], ["def", "who", 0], ["getctx", "__gc1__"]]]]
+    ops = [["run", 0, ["getctx", "__gc2__"]], ["run", 1, ["listctx", "__gc3__"]],
+           ["run", 0, ["import", ["m1"], None]], ["run", 0, ["listctx", "__gc4__"]],
+           ["run", 0, ["call", "r", A("m1", "who"), []]],                    # inside a module function: the module's context
+           ["run", 0, ["setctx", ["file", "s1"]]],                            # the own context: nothing changes
+           ["run", 0, ["assign", "a", L(1)]],
+           ["run", 0, ["setctx", ["file", "nope"]]],                          # missing
+           ["run", 0, ["setctx", ["file", "s2"]]], ["run", 0, ["getctx", "__gc5__"]], ["run", 0, ["assign", "b", L(2)]],
+           ["run", 0, ["setctx", ["file", "s1"]]],
+           ["delctx", 2],                                                     # file.s3 is deleted
+           ["run", 0, ["setctx", ["file", "s3"]]],                            # deleted
+           ["run", 0, ["listctx", "__gc6__"]], ["run", 0, ["assign", "c", L(3)]],
+           ["run", 2, ["assign", "still", L(1)]]]                             # its evaluator keeps working on the old table
+    if rng.random() < 0.5:
+        ops.insert(2, ["run", 1, ["getctx", "__gc8__"]])
+    return {"kind": "interp", "tag": "ctx-api", "funcs": funcs, "files": files, "ctxs": [S1, S2, S3], "ops": ops,
+            "tags": ["get/list/set_global_ctx", "own/missing/deleted"]}
 
 
 def reentrant_case(rng):
@@ -729,6 +957,7 @@ def deep_setctx_case(rng):
 
 def run_three(p):
     """(impl, oracle, restored) for one interp-level case; the model column comes from the driver"""
+    _probe.clear()
     root = tempfile.mkdtemp(prefix="pysc_c11_")
     try:
         write_tree(root, p)
@@ -743,7 +972,7 @@ def run_three(p):
         shutil.rmtree(root, ignore_errors=True)
     impl = " ".join(outs) + ((" | " + tabs) if tabs is not None else "")
     orc = " ".join(pouts) + ((" | " + ptabs) if ptabs is not None else "")
-    return impl, orc, restored, list(_call_viol)
+    return impl, orc, restored, list(_call_viol), dict(_probe)
 
 
 # --------------------------------------------------------------------------------------------- generator
@@ -1289,13 +1518,23 @@ def gen_cases(rng, tier, search):
         n_rand, n_ha = n_rand * 3, n_ha * 2
     cases = []
     for sc in scenarios():
-        cases.append(Case(sc, to_line(sc), tags=("scenario", sc["tag"])))
+        cases.append(Case(sc, None if sc.get("no_model") else to_line(sc), tags=("scenario", sc["tag"])))
+    for _ in range(6 if tier == "quick" else 40):
+        for mk in (deep_pkg_case, star_all_case, two_spellings_case, fnflow_case, ctxapi_case):
+            p = mk(rng)
+            cases.append(Case(p, to_line(p), tags=tuple(["interp", p["tag"]] + p["tags"])))
     for _ in range(12 if tier == "quick" else 60):
         for mk in (reentrant_case, overlap_case, deep_setctx_case):
             p = mk(rng)
             cases.append(Case(p, to_line(p), tags=tuple(["interp", p["tag"]] + p["tags"])))
     for _ in range(n_rand):
         p = ProgGen(rng).build()
+        if rng.random() < 0.35:
+            # boundary names: prefixes of each other, case-only differences, script/module with one base name, names
+            # that shadow builtins
+            tag, mapping = RENAMES[rng.randrange(len(RENAMES))]
+            p = rename_ids(p, mapping)
+            p["tags"] = sorted(set(p["tags"]) | {"rename:" + tag})
         cases.append(Case(p, to_line(p), tags=tuple(["interp"] + p["tags"])))
     for _ in range(n_ha):
         p = gen_ha_case(rng)
@@ -1320,8 +1559,8 @@ def _run_one(payload):
                 signal.setitimer(signal.ITIMER_PROF, 0)
             orc = ha_oracle(payload)
             return {"impl_tabs": tabs, "oracle_tabs": orc, "call_restore": cviol}
-        impl, orc, restored, cviol = run_three(payload)
-        return {"impl": impl, "oracle": orc, "restored": restored, "call_restore": cviol}
+        impl, orc, restored, cviol, probe = run_three(payload)
+        return {"impl": impl, "oracle": orc, "restored": restored, "call_restore": cviol, "probe": probe}
     except BaseException as e:  # pylint: disable=broad-except
         import traceback
         return {"crash": f"{type(e).__name__}: {e}", "tb": traceback.format_exc()[-1500:]}
@@ -1393,6 +1632,11 @@ def verdict(c):
             return f"evaluator pointers not restored after statement {o[2][0]}: {pr[0]} -> {pr[1]}"
     if impl != orc:
         return "differs from CPython: " + _first_diff(impl, orc)
+    pb = r.get("probe") or {}
+    if pb.get("ps", {}) != pb.get("py", {}):
+        a, b = pb.get("ps", {}), pb.get("py", {})
+        k = sorted(x for x in set(a) | set(b) if a.get(x) != b.get(x))[0]
+        return f"context function result differs: {k} pyscript {a.get(k)!r} expected {b.get(k)!r}"
     return None
 
 
@@ -1429,6 +1673,12 @@ def classify(c, reason):
     extra = il - ol
     if extra and has_relative_from_submodule(p) and all(_is_misnamed(x, ol) for x in extra):
         return "relative-import-from-submodule-wrong-context-name"
+    if p.get("tag") == "shadow-pyscript-function" and "table " in reason and "<method>" in impl:
+        return "global-named-like-a-pyscript-function-hidden-inside-functions"
+    if p.get("has_all") and "table " in reason:
+        return "star-import-ignores-__all__"
+    if "table " in reason and re.search(r"[{,][A-Za-z_0-9]+\.[A-Za-z_0-9.]+=", impl.split(" | ")[-1]) and has_dotted_import(p):
+        return "import-of-dotted-name-binds-the-dotted-string"
     if "statement " in reason and "pyscript ImportError, CPython ok" in reason and has_relative_from_submodule(p) \
             and has_dotted_from(p):
         return "relative-import-fails-in-submodule-imported-by-dotted-name"
@@ -1446,6 +1696,14 @@ def has_relative_from_submodule(p):
         return any((s[0] == "fromdot" and s[1] >= 1) or (s[0] == "from" and s[2] >= 1) or
                    (s[0] == "try" and (rel_in(s[1]) or rel_in(s[2]))) for s in b)
     return any(path[-1] != "__init__" and rel_in(b) for path, b in p["files"])
+
+
+def has_dotted_import(p):
+    def dotted(b):
+        return any((s[0] == "import" and len(s[1]) > 1 and not s[2]) or (s[0] == "try" and (dotted(s[1]) or dotted(s[2])))
+                   for s in b)
+    return any(dotted(f[3]) for f in p["funcs"]) or any(dotted(b) for _, b in p["files"]) or \
+        dotted([o[2] for o in p["ops"] if o[0] == "run"])
 
 
 def has_dotted_from(p):
@@ -1466,7 +1724,7 @@ def _import_cycle(p):
 def replay_cases(obj):
     p = obj["case"]
     p.pop("_run", None)
-    return [Case(p, to_line(p))]
+    return [Case(p, None if p.get("no_model") else to_line(p))]
 
 
 def shrink(c, reason):
@@ -1522,7 +1780,7 @@ def extra_coverage(cases):
 
 if __name__ == "__main__":
     for sc in scenarios():
-        impl, orc, rest, _cv = run_three(sc)
+        impl, orc, rest, _cv, _pb = run_three(sc)
         line = to_line(sc)
         mod = common.drive([line])[0]
         print("==", sc["tag"])
